@@ -1,6 +1,6 @@
 PLAN['C02'] = dict(
     level='exploration',
-    units=std_units('C02', [('asan', 'sdcz', 3600, 200000), ('asan-vb', 'sdcz', 1200, 40000), ('asan-i64', 'sdcz', 900, 40000)], chunk=100),
+    units=std_units('C02', [('asan', 'sdcz', 10800, 200000), ('asan-vb', 'sdcz', 3600, 40000), ('asan-i64', 'sdcz', 2700, 40000)], chunk=100),
     rule='seeded random matrices (11 pattern x 8 value classes; square n 1..50 and tall m>n through ?gstrf, square through ?gssv incl. row storage; thorough tail n<=300) '
          'x ColPerm (incl. caller permutation) x u in {1,.5,.1,.01,1e-3,1e-8} x SymmetricMode x tuning table; non-trivial = info 0 and n>=2; distinct = hash(pattern, ColPerm, route, storage, SymmetricMode, outcome)',
     counter_names=['sum identity/bound per-mille', 'max identity/bound per-mille', 'columns where the diagonal was chosen although not the maximum (preference clause decisive)', 'near-threshold columns left undecided'],
